@@ -319,6 +319,8 @@ class Interp:
                 return obj.cls
             f = s.find_method(obj.cls, name)
             if f is not None:
+                if any(norm(d) == 'property' for d in f.node.decorator_list):
+                    return s.call_function(f, [obj], {})
                 return Bound(obj, f)
             ok, v = s.class_attr(obj.cls, name)
             if ok:
@@ -400,7 +402,13 @@ class Interp:
     def _int(s, x=0):
         if isinstance(x, SymInt):
             return x
-        if isinstance(x, (AInst, Opaque, ClsVal)):
+        if isinstance(x, AInst):
+            for nm in ('__int__', '__index__'):
+                f = s.find_method(x.cls, nm)
+                if f is not None:
+                    return s.call_function(f, [x], {})
+            raise Raised('TypeError')
+        if isinstance(x, (Opaque, ClsVal)):
             raise AnalysisError("int() of an abstract object")
         return int(x)
 
